@@ -6,7 +6,7 @@ TOWER = Family("drv_tower", ["drv_tower.cpp"], "Trace_Tower")
 
 def key_of(ev, labels):
     if ev.get("op", "").startswith("tm."):
-        return "tm:%s::%s:alias%s:%s" % (ev.get("cls"), ev.get("name"), ev.get("alias"), "+".join(labels))
+        return "tm:%s::%s:alias%s:%s%s" % (ev.get("cls"), ev.get("name"), ev.get("alias"), ("pow%s:" % (ev["power"] % 12)) if "power" in ev else "", "+".join(labels))
     if ev.get("op") == "ext.cmp" and labels == ["cmp.integer-order"]:
         return "ext.cmp:montgomery-residue-order"
     return "%s:lvl%s:%s:alias%s:%s%s" % (ev.get("op"), ev.get("lvl"), ev.get("cfg"), ev.get("alias", 0),
@@ -36,8 +36,9 @@ def confirm_factory(run):
 
 
 # ---- the tower's straight-line functions, extracted from the source text and executed by TowerMachine.tla on a toy field ----
-def tower_machine_cases(tier, with_alias):
-    """returns (program file, cases, unsupported function names)"""
+def tower_machine_cases(tier, with_alias, part="tower"):
+    """returns (program file, cases, unsupported function names).  part = "tower": the Fq2/Fq6/Fq12 member functions (C04, C18);
+    part = "pairing": the Miller-loop step functions of pairing.cpp on a toy twist (C01)"""
     import os, subprocess
     sc = vlib.scratch()
     prog = os.path.join(sc, "tower_prog.ndjson")
@@ -47,10 +48,36 @@ def tower_machine_cases(tier, with_alias):
     rows = vlib.read_ndjson(prog)
     cases, unsupported = [], []
     nseed = 3 if tier == "quick" else 12
+    base = 100 * (vlib.seed() % 50)
+    common = {"src": "source-extracted", "cfg": "source"}
     for r in rows:
+        if (r["cls"] == "pairing") != (part == "pairing"): continue
         if "steps" not in r:
             unsupported.append("%s::%s (%s)" % (r["cls"], r["name"], r.get("unsupported", "")[:50])); continue
         if r["name"] == "norm" or r.get("ovl", 1) != 1: continue
+        if r["cls"] == "pairing":
+            if r["name"] == "miller_doubling_step":
+                # every point of the toy twist in the thorough tier (indices are taken modulo the number of points)
+                for i in (range(0, 400) if tier == "thorough" else [(7 * k + vlib.seed()) % 400 for k in range(60)]):
+                    for sd in range(1, 3 if tier == "thorough" else 2):
+                        cases.append(dict(common, op="tm.dbl", cls="pairing", name=r["name"], alias=0, pt=i, seed=base + sd + i))
+            elif r["name"] == "miller_addition_step":
+                n = 4000 if tier == "thorough" else 90
+                for k in range(n):
+                    cases.append(dict(common, op="tm.addstep", cls="pairing", name=r["name"], alias=0, pt=(13 * k + vlib.seed()) % 400, pt2=(29 * k + 7 * (k // 400) + 3) % 400, seed=base + k))
+            elif r["name"] == "ell":
+                for k in range(40 if tier == "thorough" else 6):
+                    cases.append(dict(common, op="tm.ell", cls="pairing", name=r["name"], alias=0, seed=base + k + 1))
+            else:
+                unsupported.append("%s::%s (straight-line, checked in the exponent machine only)" % (r["cls"], r["name"]))
+            continue
+        if r["name"] == "frobenius_map":
+            powers = [0, 1, 2, 3, 5, 6, 7, 11, 12, 13, 2147483647] if tier == "quick" else list(range(0, 26)) + [2147483647, 2147483646]
+            for k in powers:
+                for al in ([0, 1] if with_alias else [0]):
+                    for sd in range(1, 2 if tier == "quick" else 4):
+                        cases.append(dict(common, op="tm.frob", cls=r["cls"], name=r["name"], alias=al, power=k, seed=base + sd + 37 * (k % 100)))
+            continue
         has_b = any(q["name"] == "b" and q["type"] == r["cls"] for q in r["params"])
         b_restrict = any(q["name"] == "b" and q["restrict"] for q in r["params"])
         a_ok = r["params"] and r["params"][0]["type"] == r["cls"] and not r["params"][0]["restrict"]
@@ -60,18 +87,77 @@ def tower_machine_cases(tier, with_alias):
             if has_b and not b_restrict: aliases += [2, 3]
         for al in aliases:
             for seed in range(1, nseed + 1):
-                cases.append({"op": "tm.case", "cls": r["cls"], "name": r["name"], "alias": al, "seed": seed + 100 * (vlib.seed() % 50), "src": "source-extracted", "cfg": "source"})
+                cases.append(dict(common, op="tm.case", cls=r["cls"], name=r["name"], alias=al, seed=seed + base))
         if tier == "thorough" and r["cls"] == "Fq2" and not with_alias and r["name"] in ("multiply", "add", "subtract"):
             for x in range(0, 361):
-                cases.append({"op": "tm.all2", "cls": "Fq2", "name": r["name"], "alias": 0, "x": x, "src": "source-extracted", "cfg": "source"})
+                cases.append(dict(common, op="tm.all2", cls="Fq2", name=r["name"], alias=0, x=x))
     return prog, cases, unsupported
 
-def tower_machine(run, tier, with_alias):
+def tower_machine(run, tier, with_alias, part="tower"):
     """runs the cases through Trace_TowerMachine; returns (cases, fails, unsupported)"""
     import os
-    prog, cases, unsupported = tower_machine_cases(tier, with_alias)
-    tf = os.path.join(vlib.scratch(), "tm.%s.trace.ndjson" % ("alias" if with_alias else "value"))
+    prog, cases, unsupported = tower_machine_cases(tier, with_alias, part)
+    tf = os.path.join(vlib.scratch(), "tm.%s.%s.trace.ndjson" % (part, "alias" if with_alias else "value"))
     vlib.write_ndjson(tf, cases)
     fails = run.validate("Trace_TowerMachine", [tf], env={"TOWERPROG": prog}, timeout=3000)
+    # a case the machine could not execute (a callee that is no longer straight-line, a function template) is not judged: reported, not a finding
+    skipped = sorted(set("%s::%s" % (e.get("cls"), e.get("name")) for e, l in fails if "diag.not-executable" in l))
+    if skipped: run.extra["source_cases_not_executable_%s" % part] = skipped
+    fails = [(e, [x for x in l if not x.startswith("diag.")]) for e, l in fails]
+    fails = [(e, l) for e, l in fails if l]
     run.configs.add("source (TowerMachine, toy field F_19)")
     return cases, fails, unsupported
+
+# ---- the final exponentiation executed in the exponent, at full size (ExpMachine.tla) --------------------------------------
+EXP_LINE = None
+def exp_machine(run):
+    """returns {(function, alias): (verdict, detail)} for final_exponentiation and map_to_cyclotomic, alias 0 (distinct output) and 1 (output = input)"""
+    import os, re, subprocess
+    prog = os.path.join(vlib.scratch(), "exp_prog.ndjson")
+    p = subprocess.run(["python3", os.path.join(vlib.VERIF, "tools", "extract_tower.py"), prog], stdout=subprocess.PIPE, stderr=subprocess.STDOUT, text=True,
+                       env=dict(os.environ, VERIF_REPO=vlib.REPO))
+    if p.returncode != 0: raise vlib.Infra("extract_tower failed: " + p.stdout[-500:])
+    r = vlib.tlc("ExpMachine", None, env={"TOWERPROG": prog}, timeout=900)
+    flat = r.out.replace("\n", " ")
+    got = re.findall(r'<<\s*"(EXP-OK|EXP-BAD|EXP-FAULT|EXP-SKIP)",\s*"(\w+)",\s*(\d),\s*"([^"]*)"\s*>>', flat)
+    if not r.ok or len(got) != 4: raise vlib.Infra("ExpMachine: %d verdicts\n%s" % (len(got), r.out[-3000:]))
+    if run is not None:
+        run.mc_runs.append({"module": "ExpMachine", "role": "final exponentiation / cyclotomic map from the source text, executed on exponents modulo q^12 - 1",
+                            "verdicts": ["%s %s alias%s" % (v, n, a) for v, n, a, d in got], "wall_s": round(r.wall, 1)})
+        run.states += r.distinct; run.transitions += r.generated
+    return {(n, int(a)): (v, d) for v, n, a, d in got}
+
+def exp_events(verdicts, want):
+    """want: list of (function, alias); returns rejected events [(event, labels)] and the list of skipped (not expressible) functions"""
+    fails, skipped = [], []
+    for k in want:
+        v, d = verdicts[k]
+        if v == "EXP-SKIP": skipped.append("%s alias%d" % k)
+        elif v != "EXP-OK": fails.append(({"op": "exp.machine", "name": k[0], "alias": k[1], "verdict": v, "detail": d, "cfg": "source"}, [v.lower()]))
+    return fails, skipped
+
+def exp_key(ev, labels):
+    return "exp:%s:alias%s:%s" % (ev.get("name"), ev.get("alias"), "+".join(labels))
+
+def replay_special(prop, path, ev):
+    """--replay for events judged from the source text (no driver involved)"""
+    if ev.get("op") == "exp.machine":
+        v, d = exp_machine(None)[(ev["name"], ev["alias"])]
+        if v not in ("EXP-OK", "EXP-SKIP"):
+            print("VIOLATION property=%s replay=%s" % (prop, path)); print("  %s alias%s: %s (%s)" % (ev["name"], ev["alias"], v, d)); return 1
+        print("replay: event accepted"); return 0
+    # tm.*: run the one case through Trace_TowerMachine against the step lists of the current tree
+    import os, subprocess
+    prog = os.path.join(vlib.scratch(), "tower_prog.replay.ndjson")
+    p = subprocess.run(["python3", os.path.join(vlib.VERIF, "tools", "extract_tower.py"), prog], stdout=subprocess.PIPE, stderr=subprocess.STDOUT, text=True,
+                       env=dict(os.environ, VERIF_REPO=vlib.REPO))
+    if p.returncode != 0: raise vlib.Infra("extract_tower failed: " + p.stdout[-500:])
+    tf = os.path.join(vlib.scratch(), "tm.replay.ndjson")
+    vlib.write_ndjson(tf, [{k: v for k, v in ev.items() if k not in ("akey", "acode")}])
+    from engine import Run
+    run = Run(prop, "quick")
+    fails = run.validate("Trace_TowerMachine", [tf], env={"TOWERPROG": prog}, timeout=900)
+    labels = [x for e, l in fails for x in l if not x.startswith("diag.")]
+    if labels:
+        print("VIOLATION property=%s replay=%s" % (prop, path)); print("  labels=%s" % labels); return 1
+    print("replay: event accepted"); return 0
